@@ -71,6 +71,8 @@ CHECKS["C18"] = {
     "assumptions": ["protobuf encoding is deterministic enough for proto.Equal round-trips (Equal compares decoded values)"],
     "units": [
         {"pkg": "pkg/protoio", "run": "^TestVerif_C18_", Q: {"timeout": 300}, T: {"timeout": 3000, "shards": 8}, "mem_gb": 6},
+        # coverage-guided campaign (native go fuzzing), thorough tier only: same differential oracle as TestVerif_C18_Differential
+        {"pkg": "pkg/protoio", "run": "^$", "fuzz": "FuzzVerif_C18", T: {"fuzztime": 240, "workers": 8}, "mem_gb": 24},
     ],
     "crash_patterns": [
         {"re": r"fatal error: (runtime: )?(out of memory|cannot allocate memory)|runtime: out of memory|panic: runtime error: makeslice: len out of range",
@@ -130,7 +132,7 @@ CHECKS["C02"] = {
         {"pkg": _SS, "run": "^TestVerif_C02_", Q: {"timeout": 600}, T: {"timeout": 3400, "shards": 16}},
     ],
     "mandatory_labels": {"all": ["tree/edge-attempt", "tree/duplicate", "tree/out-of-order-success", "random/edge-attempt", "random/duplicate",
-                                 "random/out-of-order-success", "random/re-registration", "random/two-senders"]},
+                                 "random/out-of-order-success", "random/re-registration", "random/two-senders", "random/push-before-store"]},
 }
 
 CHECKS["C09"] = {
